@@ -59,7 +59,7 @@ var Profiles = map[string]Profile{
 		MultiMax: -1, Modes: []string{"convcall"}, BadProb: 0.08},
 	"conc": {Types: []string{"T1", "T2", "T3", "T4"}, Ifaces: []string{"I1"}, Names: []string{"", "", "a", "b"}, Subs: []string{"", "s", "t"},
 		MaxIn: 2, MaxOut: 2, MaxTIn: 3, MaxInputs: 3, MaxConvs: 4, Forms: []string{"pos", "struct", "ptr"}, FailProb: 0.1, OnceProb: 0.4,
-		MultiMax: -1, Modes: []string{"call"}, TargetOuts: 1},
+		MultiMax: -1, Modes: []string{"call"}, TargetOuts: 1, DefProb: 0.5},
 	"oncey": {Types: []string{"T1", "T2", "T3", "T4"}, Ifaces: []string{"I1"}, Names: []string{"", "", "", "a"}, Subs: []string{"", "", "", "s"},
 		MaxIn: 1, MaxOut: 2, MaxTIn: 3, MaxInputs: 2, MaxConvs: 5, Forms: []string{"pos", "struct", "ptr", "ptr", "built"}, FailProb: 0.1, OnceProb: 0.6,
 		MultiMax: 1, Modes: []string{"call"}, TargetOuts: 1},
